@@ -6,7 +6,7 @@ namespace Abmarl
 namespace World
 
 /-- Prop reading of `wCell` -/
-theorem wCell_iff (w : World) (i : Nat) :
+theorem wCell_reading (w : World) (i : Nat) :
     w.wCell i = true ↔
       ((w.cells.getD i []).Nodup ∧
        (∀ a ∈ w.cells.getD i [], a < w.n ∧ (w.stOf a).active = true ∧ w.inGrid (w.stOf a).pos = true ∧
@@ -16,7 +16,7 @@ theorem wCell_iff (w : World) (i : Nat) :
     and_assoc]
 
 /-- Prop reading of `wAgent` -/
-theorem wAgent_iff (w : World) (a : Aid) :
+theorem wAgent_reading (w : World) (a : Aid) :
     w.wAgent a = true ↔
       (((w.stOf a).active = true → w.inGrid (w.stOf a).pos = true ∧ a ∈ w.cell (w.stOf a).pos) ∧
        0 ≤ (w.stOf a).health ∧ (w.stOf a).health ≤ 1 ∧
@@ -49,7 +49,7 @@ theorem wAgent_iff (w : World) (a : Aid) :
       | false => exact Or.inl rfl
       | true => exact Or.inr (h7 ha)
 
-theorem WInv_iff (w : World) :
+theorem WInv_parts_iff (w : World) :
     w.WInv = true ↔
       (w.wShape = true ∧ (∀ i < w.rows * w.cols, w.wCell i = true) ∧ (∀ a < w.n, w.wAgent a = true) ∧
         w.wOverlapSym = true) := by
@@ -69,7 +69,7 @@ theorem mem_of_lookup_int {β : Type} (l : List (Int × β)) (e : Int) (s : β) 
       exact List.mem_cons_of_mem _ (ih h)
 
 /-- the overlapping table is symmetric -/
-theorem pairOK_symm {w : World} (h : w.wOverlapSym = true) {e1 e2 : Int}
+theorem pairOK_symm_of_table {w : World} (h : w.wOverlapSym = true) {e1 e2 : Int}
     (hp : w.pairOK e1 e2 = true) : w.pairOK e2 e1 = true := by
   unfold pairOK at hp
   cases hl : w.overlap.lookup e1 with
@@ -107,15 +107,15 @@ theorem move_preserves_WInv {w w' : World} {a : Aid} {d : Pos} {ok : Bool}
   rw [← hdst] at hmoved hne
   obtain ⟨hsta, hothers, hcsrc, hcdst, hcells⟩ := hmoved ⟨hok, hne⟩
   obtain ⟨hrows, hcols, hov, hcfg, hlenc, hlens⟩ := (sameStatic_iff w w').mp hstat
-  obtain ⟨hshape, hcellsI, hagentsI, hsym⟩ := (WInv_iff w).mp hI
+  obtain ⟨hshape, hcellsI, hagentsI, hsym⟩ := (WInv_parts_iff w).mp hI
   have hP : Placed w a := by
     -- (same derivation as `placed_of_WInv`, inlined to avoid a cyclic import)
     simp only [wShape, Bool.and_eq_true, beq_iff_eq] at hshape
-    have hA := (wAgent_iff w a).mp (hagentsI a ha)
+    have hA := (wAgent_reading w a).mp (hagentsI a ha)
     refine ⟨hshape.1, by rw [hshape.2]; exact ha, (hA.1 hact).1, (hA.1 hact).2, ?_⟩
     intro i hi
     by_cases hil : i < w.rows * w.cols
-    · exact (((wCell_iff w i).mp (hcellsI i hil)).2.1 a hi).2.2.2.symm
+    · exact (((wCell_reading w i).mp (hcellsI i hil)).2.1 a hi).2.2.2.symm
     · have : w.cells.getD i [] = [] := by
         simp only [List.getD_eq_getElem?_getD]
         rw [List.getElem?_eq_none (by omega)]; rfl
@@ -153,7 +153,7 @@ theorem move_preserves_WInv {w w' : World} {a : Aid} {d : Pos} {ok : Bool}
     have := hcdst; simp only [cell, hidx'] at this; exact this
   have hsl : w.idx src < w.rows * w.cols := idx_lt hinsrc
   have hdl : w.idx dst < w.rows * w.cols := idx_lt hdfree.1
-  rw [WInv_iff]
+  rw [WInv_parts_iff]
   refine ⟨?_, ?_, ?_, ?_⟩
   · -- shape
     simp only [wShape, Bool.and_eq_true, beq_iff_eq] at hshape ⊢
@@ -161,8 +161,8 @@ theorem move_preserves_WInv {w w' : World} {a : Aid} {d : Pos} {ok : Bool}
   · -- cells
     intro i hi
     rw [← hrows, ← hcols] at hi
-    have hold := (wCell_iff w i).mp (hcellsI i hi)
-    rw [wCell_iff]
+    have hold := (wCell_reading w i).mp (hcellsI i hi)
+    rw [wCell_reading]
     by_cases hisrc : i = w.idx src
     · -- the source cell lost the mover
       subst hisrc
@@ -207,7 +207,7 @@ theorem move_preserves_WInv {w w' : World} {a : Aid} {d : Pos} {ok : Bool}
           · exact hpw b hb1 c hc1
           · simp only [List.mem_singleton] at hc1
             rw [hc1]
-            exact Or.inr (pairOK_symm hsym (hdfree.2 b hb1))
+            exact Or.inr (pairOK_symm_of_table hsym (hdfree.2 b hb1))
           · simp only [List.mem_singleton] at hb1
             rw [hb1]
             exact Or.inr (hdfree.2 c hc1)
@@ -232,8 +232,8 @@ theorem move_preserves_WInv {w w' : World} {a : Aid} {d : Pos} {ok : Bool}
   · -- agents
     intro b hb
     rw [hn'] at hb
-    have hold := (wAgent_iff w b).mp (hagentsI b hb)
-    rw [wAgent_iff, hcfg']
+    have hold := (wAgent_reading w b).mp (hagentsI b hb)
+    rw [wAgent_reading, hcfg']
     by_cases hba : b = a
     · subst hba
       rw [hst' b hb, if_pos rfl]
@@ -276,7 +276,7 @@ namespace World
 /-- changing only an agent's orientation (to one of the four directions) keeps the invariant -/
 theorem orient_preserves_WInv {w : World} {a : Aid} (hI : w.WInv = true) (ha : a < w.n) (x : Nat)
     (hx : 1 ≤ x ∧ x ≤ 4) : (w.setSt a { w.stOf a with orient := x }).WInv = true := by
-  obtain ⟨hshape, hcellsI, hagentsI, hsym⟩ := (WInv_iff w).mp hI
+  obtain ⟨hshape, hcellsI, hagentsI, hsym⟩ := (WInv_parts_iff w).mp hI
   have hlen : a < w.st.length := by
     simp only [wShape, Bool.and_eq_true, beq_iff_eq] at hshape
     rw [hshape.2]; exact ha
@@ -303,7 +303,7 @@ theorem orient_preserves_WInv {w : World} {a : Aid} (hI : w.WInv = true) (ha : a
   have hpos : ∀ b, (w'.stOf b).pos = (w.stOf b).pos ∧ (w'.stOf b).active = (w.stOf b).active ∧
       (w'.stOf b).health = (w.stOf b).health ∧ (w'.stOf b).ammo = (w.stOf b).ammo := by
     intro b; rw [hst' b]; by_cases hba : b = a <;> simp [hba]
-  rw [WInv_iff]
+  rw [WInv_parts_iff]
   refine ⟨?_, ?_, ?_, ?_⟩
   · simp only [wShape, Bool.and_eq_true, beq_iff_eq] at hshape ⊢
     rw [hcells', hrows, hcols, hcfg]
@@ -311,8 +311,8 @@ theorem orient_preserves_WInv {w : World} {a : Aid} (hI : w.WInv = true) (ha : a
     rw [hw']; simp [setSt, hshape.2]
   · intro i hi
     rw [hrows, hcols] at hi
-    have hold := (wCell_iff w i).mp (hcellsI i hi)
-    rw [wCell_iff, hcells']
+    have hold := (wCell_reading w i).mp (hcellsI i hi)
+    rw [wCell_reading, hcells']
     obtain ⟨hnd, hmem, hpw⟩ := hold
     refine ⟨hnd, ?_, ?_⟩
     · intro b hb
@@ -323,8 +323,8 @@ theorem orient_preserves_WInv {w : World} {a : Aid} (hI : w.WInv = true) (ha : a
       rw [henc', henc', hpair']; exact hpw b hb c hc
   · intro b hb
     rw [hn'] at hb
-    have hold := (wAgent_iff w b).mp (hagentsI b hb)
-    rw [wAgent_iff, hcfg', (hpos b).1, (hpos b).2.1, (hpos b).2.2.1, (hpos b).2.2.2, hinG']
+    have hold := (wAgent_reading w b).mp (hagentsI b hb)
+    rw [wAgent_reading, hcfg', (hpos b).1, (hpos b).2.1, (hpos b).2.2.1, (hpos b).2.2.2, hinG']
     obtain ⟨h1, h2, h3, h4, h5, h6, h7⟩ := hold
     refine ⟨?_, h2, h3, h4, h5, h6, ?_⟩
     · intro hbact
